@@ -41,10 +41,11 @@ func RuleCStdout(c *core.Ctx) {
 		return
 	}
 	approved := 0
+	approvedFns := map[*ssa.Function]bool{}
 	importers := map[string]bool{}
 	for _, fn := range p.SrcFuncs() {
 		pkg := core.PkgPathOf(fn)
-		if !strings.HasPrefix(pkg, pkgImporter+"/") {
+		if !strings.HasPrefix(pkg, pkgImporter+"/") && pkg != pkgImporter {
 			continue
 		}
 		importers[pkg] = true
@@ -79,14 +80,34 @@ func RuleCStdout(c *core.Ctx) {
 			key := fmt.Sprintf("%s:cmd.OutOrStdout()", core.FuncName(fn))
 			if len(bad) == 0 {
 				approved++
+				approvedFns[fn] = true
 				c.Ob(rule, key, ins.Pos(), core.FuncName(fn), core.Discharged, "stdout writer flows only into bufio.NewWriter, Flush and journal.Print")
 			} else {
 				c.Ob(rule, key, ins.Pos(), core.FuncName(fn), core.Violated, "stdout writer of importer "+short+" is also used by "+strings.Join(bad, ", "))
 			}
 		})
 	}
+	// every importer command prints through an approved site (its own, or a shared
+	// helper of the importer package)
+	for _, cmd := range core.Commands(c) {
+		if cmd.Run == nil || !core.IsImporterCmd(cmd) {
+			continue
+		}
+		key := "importer " + cmd.Use + ":prints through journal.Print on the command's stdout"
+		through := false
+		for fn := range p.ReachLexical(cmd.Run) {
+			if approvedFns[fn] {
+				through = true
+			}
+		}
+		if through {
+			c.Ob(rule, key, cmd.Run.Pos(), core.FuncName(cmd.Run), core.Discharged, "reaches an approved stdout site")
+		} else {
+			c.Ob(rule, key, cmd.Run.Pos(), core.FuncName(cmd.Run), core.Violated, "the importer does not print its journal through journal.Print on cmd.OutOrStdout()")
+		}
+	}
 	c.Note("C-stdout: %d importer packages, %d approved stdout sites", len(importers), approved)
-	c.Floor(rule, 8)
+	c.Floor(rule, 9)
 }
 
 // stdoutWriterMisuse follows a writer value and returns the consumers other
